@@ -882,3 +882,196 @@ def r_load_factor(F, V):
                         "never terminates) or the buckets chosen for n elements cannot hold n elements (reserve(n) / with_capacity(n) promise broken)" % (name, detail))
     R.floor("load-factor relations judged", n, 4)
     return R
+
+
+# --------------------------------------------------------------------- R-ERASE-WINDOW
+
+def r_erase_window(F, V):
+    """erase() may turn the slot back into EMPTY only if no probe sequence can have passed over it while it was full, i.e. if
+    the run of non-EMPTY bytes around it is shorter than a group: DELETED exactly when
+    leading_zeros(match_empty(group before)) + trailing_zeros(match_empty(group at index)) >= Group::WIDTH."""
+    from rules.arith import cls
+    R = Result("R-ERASE-WINDOW", F.cfg)
+    b = F.bodies.get("raw::RawTableInner::erase")
+    if b is None:
+        R.undec("raw::RawTableInner::erase not found")
+        return R
+    W = None
+    for p, v in F.consts.items():
+        if p.endswith("Group::WIDTH"):
+            W = int(v["val"])
+    key = "raw::RawTableInner::erase|deleted-iff-window-full"
+    # the block that selects the DELETED tag
+    del_blocks = [i for i, k, s in b.stmts() if s["k"] == "assign" and s["rv"]["k"] == "use" and s["rv"]["op"]["k"] == "const"
+                  and s["rv"]["op"].get("t") == "control::tag::Tag" and s["rv"]["op"].get("val") == 128]
+    emp_blocks = [i for i, k, s in b.stmts() if s["k"] == "assign" and s["rv"]["k"] == "use" and s["rv"]["op"]["k"] == "const"
+                  and s["rv"]["op"].get("t") == "control::tag::Tag" and s["rv"]["op"].get("val") == 255]
+    if not del_blocks or not emp_blocks or W is None:
+        R.undec("erase: DELETED / EMPTY selection or Group::WIDTH not found")
+        return R
+    probs = []
+    found = False
+    for i in b.normal:
+        t = b.term(i)
+        if t["k"] != "switch" or t["discr"]["k"] not in ("copy", "move"):
+            continue
+        d = b.single_def(t["discr"]["p"]["l"])
+        if not d or d[0] != "stmt" or d[3]["rv"]["k"] != "binop" or d[3]["rv"]["op"] not in ("Ge", "Gt", "Le", "Lt"):
+            continue
+        rv = d[3]["rv"]
+        cside = [q for q, o in enumerate((rv["a"], rv["b"])) if o["k"] == "const" and isinstance(o.get("val"), int)]
+        if len(cside) != 1:
+            continue
+        C = int((rv["a"], rv["b"])[cside[0]]["val"])
+        other = (rv["a"], rv["b"])[1 - cside[0]]
+        # the other side is leading_zeros(..) + trailing_zeros(..)
+        od = b.single_def(other["p"]["l"]) if other["k"] in ("copy", "move") else None
+        while od and od[0] == "stmt" and od[3]["rv"]["k"] == "use" and od[3]["rv"]["op"]["k"] in ("copy", "move"):
+            od = b.single_def(od[3]["rv"]["op"]["p"]["l"])
+        if not od or od[0] != "stmt" or od[3]["rv"]["k"] != "binop" or not od[3]["rv"]["op"].startswith("Add"):
+            continue
+        parts = []
+        for o in (od[3]["rv"]["a"], od[3]["rv"]["b"]):
+            pd = b.single_def(o["p"]["l"]) if o["k"] in ("copy", "move") else None
+            parts.append((callee_path(pd[3]) or "").split("::")[-1] if pd and pd[0] == "call" else "?")
+            # which group does it look at?
+            if pd and pd[0] == "call":
+                idx = None
+                cur = pd[3]["args"][0]
+                for _ in range(12):
+                    if cur["k"] not in ("copy", "move"):
+                        break
+                    dd = b.single_def(b.root_of_place(cur["p"])[0])
+                    if not dd:
+                        break
+                    if dd[0] == "call":
+                        if (callee_path(dd[3]) or "").endswith("RawTableInner::ctrl"):
+                            idx = cls(b, dd[3]["args"][1])
+                            break
+                        if not dd[3]["args"]:
+                            break
+                        cur = dd[3]["args"][0]
+                    else:
+                        ops = rv_operands(dd[3]["rv"])
+                        if not ops:
+                            break
+                        cur = ops[0]
+                parts[-1] = (parts[-1], idx)
+        found = True
+        # normalise to `sum OP C` holding on the edge to the DELETED block
+        op = rv["op"]
+        if cside[0] == 0:
+            op = {"Ge": "Le", "Gt": "Lt", "Le": "Ge", "Lt": "Gt"}[op]
+        zero = [x for v, x in t["targets"] if v == 0]
+        for s_ in b.nsucc[i]:
+            truth = s_ not in zero
+            rel = op if truth else {"Ge": "Lt", "Gt": "Le", "Le": "Gt", "Lt": "Ge"}[op]
+            to_del = any(db == s_ or db in b.reachable_from(s_, tuple(emp_blocks)) for db in del_blocks) and not any(eb == s_ for eb in emp_blocks)
+            if to_del and s_ in del_blocks:
+                # DELETED when sum rel C: must be equivalent to sum >= W
+                okrel = (rel == "Ge" and C == W) or (rel == "Gt" and C == W - 1)
+                if not okrel:
+                    probs.append("the slot becomes DELETED when the run of non-EMPTY bytes `%s %d` instead of `>= %d` (Group::WIDTH): with a run of exactly one group width a probe may have passed over the slot, "
+                                 "so marking it EMPTY cuts that probe chain (a present key is reported absent)" % ({"Ge": ">=", "Gt": ">", "Le": "<=", "Lt": "<"}[rel], C, W))
+        names = sorted(str(x) for x in parts)
+        lz = [x for x in parts if isinstance(x, tuple) and x[0] == "leading_zeros"]
+        tz = [x for x in parts if isinstance(x, tuple) and x[0] == "trailing_zeros"]
+        if len(lz) != 1 or len(tz) != 1:
+            probs.append("the run length is not leading_zeros(..) + trailing_zeros(..) (found %s)" % names)
+        else:
+            if lz[0][1] != "MASKED":
+                probs.append("leading_zeros is applied to the group at index class %s, not to the group BEFORE the slot ((index - WIDTH) & mask): empties are counted on the wrong side" % lz[0][1])
+            if not str(tz[0][1]).startswith("PARAM"):
+                probs.append("trailing_zeros is applied to the group at index class %s, not to the group starting AT the slot" % tz[0][1])
+    if not found:
+        R.undec("erase: the comparison of the non-EMPTY run length against Group::WIDTH was not found")
+    elif probs:
+        R.violation(key, b, "; ".join(sorted(set(probs))))
+        R.inst(key, "; ".join(sorted(set(probs))), "violation", True, where(b))
+    else:
+        R.inst(key, "DELETED iff leading_zeros(empties before) + trailing_zeros(empties at) >= Group::WIDTH (%d)" % W, "ok", True, where(b))
+    return R
+
+
+# --------------------------------------------------------------------- R-PROBE-INDEX
+
+def _split_top(s):
+    """split 'f(a,b,..)suffix' into (f, [args], suffix) at the top level; None if s is not a call-shaped key"""
+    i = s.find("(")
+    if i <= 0 or not s.rstrip(".0123456789abcdefghijklmnopqrstuvwxyz_").endswith(")"):
+        return None
+    depth = 0
+    args, cur = [], ""
+    end = None
+    for j in range(i, len(s)):
+        ch = s[j]
+        if ch == "(":
+            depth += 1
+            if depth == 1:
+                continue
+        elif ch == ")":
+            depth -= 1
+            if depth == 0:
+                args.append(cur)
+                end = j
+                break
+        elif ch == "," and depth == 1:
+            args.append(cur)
+            cur = ""
+            continue
+        cur += ch
+    if end is None:
+        return None
+    return s[:i], args, s[end + 1:]
+
+
+def _add_leaves(key):
+    sp = _split_top(key)
+    if sp and (sp[0] in ("Add", "core::num::usize::wrapping_add") or sp[0].endswith("::wrapping_add")) and len(sp[1]) == 2 and sp[2] in ("", ".0"):
+        return _add_leaves(sp[1][0]) + _add_leaves(sp[1][1])
+    return [key]
+
+
+PROBE_INDEXERS = ("raw::RawTableInner::find_inner", "raw::RawTableInner::find_insert_slot_in_group",
+                  "raw::RawTableInner::find_or_find_insert_slot_inner", "raw::<RawIterHashInner as Iterator>::next")
+
+
+def r_probe_index(F, V):
+    """Sibling agreement of the four places that turn 'bit b of the group at probe position p' into a bucket index: the index
+    is (p + b) & bucket_mask - exactly the probe position plus the bit index, reduced by the table's own mask."""
+    R = Result("R-PROBE-INDEX", F.cfg)
+    n = 0
+    for p in PROBE_INDEXERS:
+        b = F.bodies.get(p)
+        if b is None:
+            R.undec("%s not found" % p)
+            continue
+        masked = []
+        for i, k, s in b.stmts():
+            if s["k"] == "assign" and s["rv"]["k"] == "binop" and s["rv"]["op"] == "BitAnd":
+                ka, kb = expr_key(b, s["rv"]["a"]), expr_key(b, s["rv"]["b"])
+                if ka.endswith(".bucket_mask") or kb.endswith(".bucket_mask"):
+                    masked.append((s, kb if ka.endswith(".bucket_mask") else ka, ka if ka.endswith(".bucket_mask") else kb))
+        key = p + "|index"
+        if not masked:
+            R.violation(key, b, "%s does not reduce its bucket index by `& self.bucket_mask`" % p)
+            R.inst(key, "no masked index", "violation", True, where(b))
+            continue
+        n += 1
+        probs = []
+        for s, val, mask in masked:
+            leaves = _add_leaves(val)
+            pos = [x for x in leaves if x.endswith(".pos")]
+            bit = [x for x in leaves if "BitMaskIter as Iterator>::next" in x or "lowest_set_bit" in x]
+            rest = [x for x in leaves if x not in pos and x not in bit]
+            if len(pos) != 1 or len(bit) != 1 or rest:
+                probs.append("the masked value is not exactly probe position + bit index (terms: %s)" % [x[:50] for x in leaves])
+            if _split_top(mask) is not None:
+                probs.append("the mask is not the plain bucket_mask field (%s)" % mask[:60])
+        if probs:
+            R.violation(key, b, "%s: %s: the bucket examined / returned is not the one the matched control byte belongs to" % (p, "; ".join(sorted(set(probs)))), line=line_of(b, stmt=masked[0][0]))
+            R.inst(key, "; ".join(sorted(set(probs))), "violation", True, where(b))
+        else:
+            R.inst(key, "index = (probe_seq.pos + bit) & bucket_mask", "ok", True, where(b, stmt=masked[0][0]))
+    R.floor("probe index sites", n, 4)
+    return R
